@@ -15,6 +15,7 @@ import (
 // Sys couples one router under test with the table model that mirrors the
 // calls the engine itself issued.
 type Sys struct {
+	UseNames []string // middlewares NewSys itself gave to Router.Use (oldest first)
 	Env      *mon.Env
 	R        *mux.Router[*mon.Hnd]
 	ICS      gen.ICSet
@@ -61,6 +62,12 @@ func NewSys(ics gen.ICSet, trace, lock bool, extra ...mux.Option) *Sys {
 	}
 	o = append(o, extra...)
 	s.R = env.NewRouter("r", o...)
+	if mon.Coin(3) {
+		// a router-wide middleware: transparent for every dispatch oracle (they look at the base handler), but with it
+		// every registration has a non-empty list to combine with the caller's
+		s.R.Use(env.MW("sys-use"))
+		s.UseNames = []string{"sys-use"}
+	}
 	return s
 }
 
@@ -178,19 +185,42 @@ func (s *Sys) Handle(pattern string, methods []string, via Via, mws ...*mon.MW) 
 	for _, x := range mws {
 		m = append(m, x)
 	}
+	am, m := lendMiddlewares("Handle through "+via.String(), m)
+	as, methods := lendMethods("Handle through "+via.String(), methods)
+	defer func() {
+		am.check(m)
+		as.check(methods)
+	}()
 	func() {
 		defer func() {
 			if p := recover(); p != nil {
 				accepted, pv = false, p
 			}
 		}()
+		// a facade gets a middleware list of its own; once the facade object exists the list is the caller's again, and the
+		// caller clears it (a reused buffer) before it registers through the object
+		fa, fm := lendMiddlewares("creating a "+via.String()+" facade", []muxMW{s.Env.MW("facade-mw")})
+		release := func() {
+			fa.check(fm)
+			clear(fm)
+		}
 		switch via.Kind {
 		case 1:
-			s.R.Prefix(pattern[:via.Cut]).Handle(pattern[via.Cut:], h, m, methods...)
+			px := s.R.Prefix(pattern[:via.Cut], fm...)
+			release()
+			px.Handle(pattern[via.Cut:], h, m, methods...)
 		case 2:
-			s.R.Resource(pattern).Handle(h, m, methods...)
+			res := s.R.Resource(pattern, fm...)
+			release()
+			res.Handle(h, m, methods...)
 		case 3:
-			s.R.Prefix(pattern[:via.Cut]).Prefix(pattern[via.Cut:via.Cut2]).Handle(pattern[via.Cut2:], h, m, methods...)
+			px := s.R.Prefix(pattern[:via.Cut], fm...)
+			release()
+			fa2, fm2 := lendMiddlewares("creating a nested prefix facade", []muxMW{s.Env.MW("facade-mw-2")})
+			px2 := px.Prefix(pattern[via.Cut:via.Cut2], fm2...)
+			fa2.check(fm2)
+			clear(fm2)
+			px2.Handle(pattern[via.Cut2:], h, m, methods...)
 		default:
 			s.R.Handle(pattern, h, m, methods...)
 		}
@@ -254,6 +284,11 @@ func (s *Sys) modelRemove(pattern string, methods []string) (touched bool) {
 
 func (s *Sys) Remove(pattern string, via Via, methods ...string) (touched []string) {
 	s.Step++
+	if len(methods) > 0 {
+		as, lent := lendMethods("Remove through "+via.String(), methods)
+		methods = lent
+		defer func() { as.check(lent) }()
+	}
 	switch via.Kind {
 	case 1:
 		s.R.Prefix(pattern[:via.Cut]).Remove(pattern[via.Cut:], methods...)
@@ -328,7 +363,7 @@ func (s *Sys) ExpectRoutes() map[string][]string {
 
 // CompareRoutes returns "" when Routes() equals the model.
 func (s *Sys) CompareRoutes() string {
-	got := s.R.Routes()
+	got := takeRoutes(s.R)
 	want := s.ExpectRoutes()
 	for p, ms := range got {
 		if p == "*" {
